@@ -137,6 +137,51 @@ pub fn scope_of(rules : &[SRule], goal : Option<&str>) -> Result<Vec<usize>, Gra
     Ok(order)
 }
 
+thread_local!
+{
+    /* leaves that are directories: (directory, member files).  A directory is a legitimate source
+       (ruler hashes its listing and every file below it); what a rule "sees" of it is, for the
+       harness, the members' names and bytes. */
+    static DIR_LEAVES : std::cell::RefCell<Vec<(String, Vec<String>)>> = std::cell::RefCell::new(vec![]);
+}
+
+pub fn set_dir_leaves(v : Vec<(String, Vec<String>)>)
+{
+    DIR_LEAVES.with(|d| *d.borrow_mut() = v);
+}
+
+pub fn dir_leaf_members(path : &str) -> Option<Vec<String>>
+{
+    DIR_LEAVES.with(|d| d.borrow().iter().find(|(p, _)| p == path).map(|(_, m)| m.clone()))
+}
+
+/* path of a declared source -> what the harness takes as its content: a file's bytes, or for a
+   directory leaf an unambiguous serialisation of (name, bytes) of its members */
+pub fn leaf_bytes(path : &str, file : &dyn Fn(&str) -> Option<Vec<u8>>) -> Option<Vec<u8>>
+{
+    match dir_leaf_members(path)
+    {
+        None => file(path),
+        Some(members) =>
+        {
+            let mut out = vec![];
+            let mut any = false;
+            for m in members.iter()
+            {
+                if let Some(c) = file(m)
+                {
+                    any = true;
+                    out.extend_from_slice(m.as_bytes());
+                    out.push(0);
+                    out.extend_from_slice(&(c.len() as u64).to_le_bytes());
+                    out.extend_from_slice(&c);
+                }
+            }
+            if any { Some(out) } else { None }
+        },
+    }
+}
+
 /* Evaluate.  `file` returns the current content of a workspace file (None = does not exist). */
 pub fn evaluate(rules : &[SRule], goal : Option<&str>, file : &dyn Fn(&str) -> Option<Vec<u8>>) -> Result<ModelResult, GraphError>
 {
@@ -168,7 +213,7 @@ pub fn evaluate(rules : &[SRule], goal : Option<&str>, file : &dyn Fn(&str) -> O
                 None =>
                 {
                     leaves.insert(s.clone());
-                    match file(&s)
+                    match leaf_bytes(&s, file)
                     {
                         Some(c) => contents.push(c),
                         None => { missing.insert(s.clone()); cancelled = true; },
